@@ -392,7 +392,7 @@ func main() {
 	cases := map[string]*Case{}
 	var order []string
 	var stats []tlcStats
-	nops := 29 // size of the alphabet; checked against the Meta record below
+	nops := 30 // size of the alphabet; checked against the Meta record below
 	samples := []smp{{env.Pick(180, 1000), 2, 2}, {env.Pick(30, 200), 3, 2}, {env.Pick(45, 400), 2, 3}, {env.Pick(0, 20), 3, 3}}
 	mcs := map[string]string{"MCS.tla": sampleModule(rng, samples, nops)}
 	stats = append(stats, runIdeal(env, rep, cases, &order, map[bool]string{false: "ideal.cfg", true: "ideal_thorough.cfg"}[env.Thorough()], mcs, "MCS"))
